@@ -182,8 +182,104 @@ fn c16_pool_exhausted(case: &Case) {
     });
 }
 
+/// A parked handler is released from inside an *inline* handler, which stays on the reader
+/// until the released handler has completely finished; the next frame - already buffered - is
+/// another off-reader request. Its slot was freed by the handler's exit: it must be admitted
+/// even though the connection's task has not been descheduled once in between.
+fn c16_release_inline(case: &Case) {
+    net::set_config(simkernel::net::NetConfig { capacity: 1 << 20, lat_min: 0, lat_max: 0, max_segment: 0 });
+    let cap = pick(&[1usize, 2]);
+    let how = pick(&[Exit::Return, Exit::Return, Exit::Error, Exit::Panic]);
+    case.sample(json!({"scenario": "slot freed by handler exit, next off-reader request already buffered", "cap": cap, "exit": format!("{how:?}")}));
+    let case = case.clone();
+    aio::run(&case.clone(), 3_600, async move {
+        let gate = Gate::new();
+        let g2 = gate.clone();
+        let router = gated_router(gate.clone(), false, Arc::new(AtomicU64::new(0))).with_json("/release", move |v: Value| {
+            let tag = v["tag"].as_u64().unwrap_or(0);
+            let how = match v["how"].as_u64().unwrap_or(0) {
+                1 => Exit::Error,
+                2 => Exit::Panic,
+                _ => Exit::Return,
+            };
+            // stay on the reader until that handler's thread has ended (its closure has returned
+            // and dropped everything it owned)
+            let alive_before = simkernel::tokio_rt::live_foreign_threads();
+            g2.release(tag, how);
+            for _ in 0..5_000 {
+                if simkernel::tokio_rt::live_foreign_threads() < alive_before {
+                    break;
+                }
+                simkernel::tokio_rt::yield_to_foreign();
+            }
+            Ok(json!({"released": tag, "exited": g2.has_exited(tag) && simkernel::tokio_rt::live_foreign_threads() < alive_before}))
+        });
+        let listener = WebSocketServer::listen("127.0.0.1:0").await.unwrap();
+        let addr = listener.local_addr().unwrap();
+        let server = WebSocketServer::new(router).with_offreader_limit(cap).on_error(|_| {});
+        let srv = tokio::spawn(async move {
+            let _ = server.serve_listener(listener, "/repe").await;
+        });
+        let ws = match raw_connect(addr, "/repe").await {
+            Ok(ws) => ws,
+            Err(e) => {
+                case.harness_error(format!("handshake failed: {e}"));
+                return;
+            }
+        };
+        let (mut sink, stream) = ws.split();
+        let inbox = Arc::new(Inbox::default());
+        let collector = spawn_collector(stream, inbox.clone());
+        // fill every slot
+        for t in 1..=cap as u64 {
+            let _ = send_frame(&mut sink, &gate_frame(t, t, false, "/gate")).await;
+            let g = gate.clone();
+            if !wait_until(200, || g.has_arrived(t)).await {
+                case.harness_error("a handler did not start");
+                gate.open_all();
+                return;
+            }
+        }
+        // release #1 inline, and right behind it (same burst) a new off-reader request
+        let how_n = match how {
+            Exit::Error => 1,
+            Exit::Panic => 2,
+            _ => 0,
+        };
+        let rel = Frame::new(50, b"/release", &serde_json::to_vec(&json!({"tag": 1, "how": how_n})).unwrap()).with_formats(1, 2);
+        let newcomer = gate_frame(60, 60, false, "/gate");
+        let _ = send_frame(&mut sink, &rel).await;
+        let _ = send_frame(&mut sink, &newcomer).await;
+        let ib = inbox.clone();
+        wait_until(2_000, || !ib.responses_for(50).is_empty() || ib.ended()).await;
+        let exited = inbox.responses_for(50).first().and_then(|r| serde_json::from_slice::<Value>(&r.body).ok()).map(|v| v["exited"] == json!(true)).unwrap_or(false);
+        if !exited {
+            // the released handler had not finished when /release returned: nothing to conclude
+            gate.open_all();
+            srv.abort();
+            return;
+        }
+        case.probe("slot_freed_while_the_reader_stayed_busy");
+        let g = gate.clone();
+        let admitted = wait_until(500, || g.has_arrived(60)).await;
+        let bounced = inbox.responses_for(60).first().map(|r| r.ec);
+        case.check(admitted, "slot-leak", || format!("cap {cap}: handler #1 had exited ({how:?}) before the next off-reader request was read, yet that request was not admitted (answered ec={bounced:?})"));
+        gate.open_all();
+        let ib = inbox.clone();
+        wait_until(2_000, || !ib.responses_for(60).is_empty() || ib.ended()).await;
+        check_inbox_clean(&case, "WebSocketServer", &inbox);
+        case.nontrivial();
+        let _ = tokio::time::timeout(std::time::Duration::from_secs(2), futures_util::SinkExt::close(&mut sink)).await;
+        let _ = tokio::time::timeout(std::time::Duration::from_secs(2), collector).await;
+        srv.abort();
+    });
+}
+
 fn c16_ws_offreader(case: &Case) {
     net::reset(draw_net());
+    if simkernel::choose(8) == 0 {
+        return c16_release_inline(case);
+    }
     let cap = pick(&[1usize, 1, 2, 2, 3, 3, 4, 8, 16, 0]);
     let effective = if cap == 0 { usize::MAX } else { cap };
     // "unlimited" really is unlimited: sometimes far more handlers than any default cap
